@@ -46,7 +46,7 @@ ASSUMPTIONS = [
 MINIMUMS = {"shared_waiters_with_cancel": 300, "expiry_in_flight": 200, "eviction_in_flight": 200, "monitor:single-flight": 1000, "monitor:delivery": 3000, "set:schedules": 1500}
 JOBS = {"quick": 4, "thorough": 16}
 LEVEL_TEXT = (
-    "For every configuration of 2-3 callers over 1-2 keys (cancellers, expiry, limit 1/2, value/exception outcomes) the gate-release orders are explored by "
+    "For every configuration of 2-3 (thorough: 2-4) callers over 1-2 keys (cancellers, expiry, limit 1/2, value/exception outcomes) the gate-release orders are explored by "
     "DFS (complete when the tree is below the cap, otherwise cap + random schedules), 4-caller configurations randomly; each execution is checked for "
     "single-flight, delivery by identity, absence of cancellation inside the wrapped coroutine, honoured caller cancellation and quiescence."
 )
